@@ -672,6 +672,7 @@ type execResult struct {
 	st      *State
 	results []Val
 	exits   []frameExit
+	fr      *Frame
 }
 
 // execFunc runs fn from state st with the given arguments; returns the merged exit state (nil if no normal exit).
@@ -815,7 +816,7 @@ func (vc *VC) execFunc(fn *ssa.Function, args []Val, bind []Val, st *State, dept
 		}
 		results = append(results, vc.mergeVals(rt.At(i).Type(), vals, gs, merged, "res"))
 	}
-	return &execResult{st: merged, results: results, exits: fr.exits}
+	return &execResult{st: merged, results: results, exits: fr.exits, fr: fr}
 }
 
 func (li *loopInfo) inAnyLoop(b *ssa.BasicBlock) bool {
